@@ -367,6 +367,11 @@ func (fv *FV) contractCall(name string, call *ast.CallExpr, cx *Cx) (TV, bool) {
 		if len(call.Args) > 2 {
 			_, ty = fv.binder(&ast.BinaryExpr{X: ast.NewIdent("x"), Op: token.MUL, Y: call.Args[2]})
 		}
+		if strings.HasPrefix(string(m.S), "(Array ") {
+			if _, vs := splitArraySort(m.S); vs != SInt {
+				return TV{T: sel(m.T, k.T), S: vs}, true // map to a non-integer sort (strmap)
+			}
+		}
 		return TV{T: sel(m.T, k.T), S: SInt, Ty: ty}, true
 	case "elems":
 		x := fv.expr(call.Args[0], cx)
@@ -476,10 +481,16 @@ func (fv *FV) contractCall(name string, call *ast.CallExpr, cx *Cx) (TV, bool) {
 		return TV{T: x.T, S: SInt, Ty: types.NewPointer(obj.Type())}, true
 	case "idx":
 		// idx(): index of the enclosing range loop (in a loop invariant)
-		if cx.rng == nil {
-			panic(refuse("idx() outside the invariant of a range loop"))
+		rng := cx.rng
+		if rng == nil {
+			// invariant of a loop nested in a range loop, or a ghost statement in its body: the innermost enclosing range
+			// loop. Inside the body the index has already been advanced: the current element is idx() - 1.
+			rng = fv.enclosingRange(cx.scopePos)
 		}
-		_, ic := fv.rangeCells(cx.rng)
+		if rng == nil {
+			panic(refuse("idx() outside a range loop"))
+		}
+		_, ic := fv.rangeCells(rng)
 		return TV{T: fv.get(cx.st, ic, SInt), S: SInt, Ty: tInt}, true
 	case "cur":
 		// cur(): cursor of the enclosing range loop over a list iterator: the element the next iteration receives (nil: done)
@@ -519,6 +530,12 @@ func (fv *FV) contractCall(name string, call *ast.CallExpr, cx *Cx) (TV, bool) {
 	case "allocated":
 		x := fv.expr(call.Args[0], cx)
 		return b(and(sx("<", "0", x.T), sx("<", x.T, fv.get(cx.st, "alloc", SInt))))
+	case "substr":
+		// substr(s, lo, hi): the string made of the runes lo .. hi-1 of s, i.e. string([]rune(s)[lo:hi])
+		x := fv.expr(call.Args[0], cx)
+		lo := fv.expr(call.Args[1], cx)
+		hi := fv.expr(call.Args[2], cx)
+		return TV{T: sx("str_of_runes", sx("str_runes", x.T), lo.T, sx("-", hi.T, lo.T)), Ty: types.Typ[types.String], S: SStr}, true
 	case "rlen":
 		x := fv.expr(call.Args[0], cx)
 		return TV{T: sx("str_rlen", x.T), Ty: tInt, S: SInt}, true
@@ -572,6 +589,21 @@ func (fv *FV) contractCall(name string, call *ast.CallExpr, cx *Cx) (TV, bool) {
 		return TV{T: sx(sym(name), args...), Ty: ty, S: rs}, true
 	}
 	return TV{}, false
+}
+
+// enclosingRange: the innermost range statement of the function whose body contains pos.
+func (fv *FV) enclosingRange(pos token.Pos) *ast.RangeStmt {
+	var best *ast.RangeStmt
+	if fv.fn == nil || fv.fn.Body == nil || !pos.IsValid() {
+		return nil
+	}
+	ast.Inspect(fv.fn.Body, func(n ast.Node) bool {
+		if rs, ok := n.(*ast.RangeStmt); ok && rs.Body.Pos() <= pos && pos <= rs.Body.End() {
+			best = rs
+		}
+		return true
+	})
+	return best
 }
 
 // readsCell gives the current term of a heap cell named as in a modifies clause ("Node.Forward").
@@ -806,8 +838,8 @@ func (fv *FV) contractedCall(call *ast.CallExpr, cx *Cx) []TV {
 	}
 	for i, a := range argExprs {
 		if i >= nFixed && sigVariadic && !call.Ellipsis.IsValid() {
-			// variadic tail: evaluated for effects/safety only
-			fv.expr(a, cx)
+			// variadic tail: evaluated for effects/safety; an assumed contract may name the elements va0, va1, ...
+			env[fmt.Sprintf("va%d", i-nFixed)] = fv.expr(a, cx)
 			continue
 		}
 		v := fv.expr(a, cx)
@@ -1086,6 +1118,10 @@ func ghostSort(gs string) Sort {
 		return arr(SInt, SBool)
 	case "map":
 		return arr(SInt, SInt)
+	case "bool":
+		return SBool
+	case "strmap":
+		return arr(SInt, SStr)
 	}
 	return SInt
 }
